@@ -15,6 +15,11 @@ R4s  `for X in [&]PATH { B }`  (X an identifier, PATH an identifier / field path
 R4u  `for _ in E`  ->  `for vx_u in E`
      Alpha-renaming of the unused loop pattern so that loop invariants can name the iteration count; `vx_u` is not used
      by the body (the identifier does not occur in the source, rustc would reject a clash).
+
+R4z  `for (A, B) in X.iter().zip(Y.iter()) { S }`   (A, B identifiers; X, Y identifier / field paths)
+     ->  `for vx_z in 0..vx_min(X.len(), Y.len()) { let A = &X[vx_z]; let B = &Y[vx_z]; S }`
+     Definitional for slices and `Vec`: `zip` yields `(&X[i], &Y[i])` for i = 0, 1, … and stops when the shorter side is
+     exhausted; both are borrowed immutably for the whole loop.  The unit provides a verified `fn vx_min(usize, usize)`.
 """
 from ..lexer import lex, sig
 from ..extract import match_close
@@ -87,4 +92,47 @@ def r4u_named_unused(text, log):
     return apply_edits(text, edits)
 
 
-RULES = {"R4u": r4u_named_unused, "R15": r15_anyhow, "R4s": r4s_slice_for}
+def _path_end(st, j):
+    """st[j] starts PATH := ident ( . ident|num )* ; returns index one past it, or None"""
+    if st[j].kind != "ident":
+        return None
+    j += 1
+    while j + 1 < len(st) and st[j].text == "." and st[j + 1].kind in ("ident", "num") and st[j + 1].text not in ("iter",):
+        j += 2
+    return j
+
+
+def r4z_zip_for(text, log):
+    while True:
+        st = sig(lex(text))
+        done = True
+        for i, t in enumerate(st):
+            if not (t.kind == "ident" and t.text == "for"):
+                continue
+            # for ( A , B ) in X . iter ( ) . zip ( Y . iter ( ) ) {
+            if i + 7 >= len(st) or [x.text for x in st[i + 1:i + 2]] != ["("]:
+                continue
+            if st[i + 2].kind != "ident" or st[i + 3].text != "," or st[i + 4].kind != "ident" or st[i + 5].text != ")" or st[i + 6].text != "in":
+                continue
+            a, b = st[i + 2].text, st[i + 4].text
+            x0 = i + 7
+            x1 = _path_end(st, x0)
+            if x1 is None or [x.text for x in st[x1:x1 + 7]] != [".", "iter", "(", ")", ".", "zip", "("]:
+                continue
+            y0 = x1 + 7
+            y1 = _path_end(st, y0)
+            if y1 is None or [x.text for x in st[y1:y1 + 6]] != [".", "iter", "(", ")", ")", "{"]:
+                continue
+            brace = y1 + 5
+            X = span_text(text, st, x0, x1)
+            Y = span_text(text, st, y0, y1)
+            new_head = "for vx_z in 0..vx_min(%s.len(), %s.len()) { let %s = &%s[vx_z]; let %s = &%s[vx_z];" % (X, Y, a, X, b, Y)
+            text = text[:t.start] + new_head + text[st[brace].end:]
+            log["R4z zip-for -> index loop"] = log.get("R4z zip-for -> index loop", 0) + 1
+            done = False
+            break
+        if done:
+            return text
+
+
+RULES = {"R4z": r4z_zip_for, "R4u": r4u_named_unused, "R15": r15_anyhow, "R4s": r4s_slice_for}
